@@ -266,27 +266,40 @@ func PrunePathValues(paths []configapi.PathValue, leaveTopDeletedPaths bool) []c
 	})
 
 	prunedPaths := make([]configapi.PathValue, 0, len(sortedPaths))
-	deletingPrefix := ""
+	deletedRoots := make([]string, 0)
 	for _, pv := range sortedPaths {
-		// If this path is marked as deleted and we're already not deleting this subtree, start deleting
-		if pv.Deleted && (len(deletingPrefix) == 0 || !strings.HasPrefix(pv.Path, deletingPrefix)) {
-			deletingPrefix = pv.Path
+		// Skip everything that belongs to a sub-tree already being deleted. A sub-tree root always sorts before its
+		// members, but members are not necessarily contiguous: sub-trees are matched at path element boundaries.
+		if isInDeletedSubTree(pv.Path, deletedRoots) {
+			continue
+		}
+
+		// If this path is marked as deleted, start deleting its sub-tree
+		if pv.Deleted {
+			deletedRoots = append(deletedRoots, pv.Path)
 
 			// If we're asked to leave behind the top deleted node of a sub-tree, add it here
 			if leaveTopDeletedPaths {
 				prunedPaths = append(prunedPaths, pv)
 			}
+			continue
 		}
-
-		// If we're not currently deleting or if the node is not part of the sub-tree, add it and cancel deletion
-		// since we have left the sub-tree.
-		if len(deletingPrefix) == 0 || !strings.HasPrefix(pv.Path, deletingPrefix) {
-			prunedPaths = append(prunedPaths, pv)
-			deletingPrefix = ""
-		}
+		prunedPaths = append(prunedPaths, pv)
 	}
 
 	return prunedPaths
+}
+
+// isInDeletedSubTree returns true if the path is the root of one of the given sub-trees or lies beneath it, at a path
+// element (or list key) boundary; a sibling whose name merely starts with the name of a root is not part of its sub-tree
+func isInDeletedSubTree(path string, roots []string) bool {
+	for _, root := range roots {
+		if strings.HasPrefix(path, root) &&
+			(len(path) == len(root) || path[len(root)] == '/' || path[len(root)] == '[') {
+			return true
+		}
+	}
+	return false
 }
 
 // PrunePathMap produces a copy of the given path values map, with paths marked as deleted and their sub-paths removed.
